@@ -1,4 +1,5 @@
 import Qentem.Proofs.ExprEval
+import Qentem.Proofs.ExprScanWf
 import Qentem.Generated.Expr
 /-!
 # C04 — expression evaluation equals exact arithmetic with the documented precedence
@@ -13,6 +14,8 @@ Theorems (all kernel-checked, `R` = any real carrier, in particular `Rat` = exac
 * `no_trap`, `no_value_iff`     no operation faults; "no value" exactly for the listed causes.
 * `cmp_logic_01`, `truth_is_positive`
 * `equality_rule_*`
+* `scan_wf`, `scan_then_evaluate`  the scanner returns a well-formed list (or nothing), so the main
+                                theorem applies to every expression text inside a tag.
 * `ScanPrint` (statement, open) scanner ∘ printer = flatten; exercised by the correspondence
                                 streams, not proved.
 -/
@@ -413,6 +416,26 @@ theorem cmp_exact (l r : Num R) (a b : Int) (hl : Num.ival l = some a) (hr : Num
     simp [Num.lt', Num.le', Num.gt', Num.ge', Num.eq', Num.cmp, hl2, hr2]
 
 end
+
+/-! ### From text to value: the scanner's output satisfies the hypothesis of the main theorem -/
+
+/-- `scan_wf`: inside a tag (`endO < length`) the scanner performs no out-of-range read and returns
+either nothing or a well-formed flat list (with the `last_oper == NoOp` test of 72d4ed6). -/
+theorem scan_wf {R : Type} (cfg : ScanCfg R) (c : List Nat) (off endO : Nat) (he : endO < c.length) :
+    Safe (parseTop cfg c off endO) (fun items => items = [] ∨ wfItems items = true) :=
+  parseTop_wf cfg c off endO he
+
+/-- End to end for every expression text inside a tag: whatever the scanner returns is evaluated by
+the flat-list recursion to the value of its precedence tree. -/
+theorem scan_then_evaluate {R : Type} [RealLike R] (cfg : ScanCfg R) (env : Env R) (c : List Nat)
+    (off endO : Nat) (he : endO < c.length) :
+    Safe (parseTop cfg c off endO)
+      (fun items => items = [] ∨ evaluateTop env true items = evalTop env (climb items)) := by
+  apply Safe.mono (parseTop_wf cfg c off endO he)
+  intro items h
+  rcases h with h | h
+  · exact Or.inl h
+  · exact Or.inr (evaluate_eq_tree env items h)
 
 /-! ### Scanner: statement only (S) -/
 
